@@ -717,6 +717,8 @@ class C15(Prop):
                "data": [math.ldexp(v, -1066) for v in (0.0, 1.0, 3.0, 3.0, 2.5, 0.25)], "scale_exp": 1066}
         yield {"kind": "extreme-scale", "dtype": "float", "shape": [5],
                "data": [v * 1.7e150 for v in (0.3, 1.1, 3.9, 4.0, 0.31)], "scale_exp": -1000}
+        yield {"kind": "extreme-scale", "dtype": "float", "shape": [4],
+               "data": [math.ldexp(-3.0, 600), math.ldexp(-2.0, 600), 0.0, math.ldexp(-2.0, 600)], "scale_exp": -600}
         # the top binade: finite data, the sum of two neighbouring edges overflows (known finding C15-top-binade-centres)
         yield {"kind": "top-binade", "dtype": "float", "shape": [3], "data": [0.0, math.ldexp(1.0, 1022), math.ldexp(3.0, 1022)], "scale_exp": -1022}
         yield {"kind": "top-binade", "dtype": "float", "shape": [3], "data": [math.ldexp(-3.0, 1022), math.ldexp(-1.0, 1022), 0.0], "scale_exp": -3}
